@@ -1,11 +1,3 @@
-// ---- compiler_convert_assumed.rs: contracts of to_u16 / to_u8 as verified verbatim in unit c11_control ----
-// PROVED-BY: unit c11_control (verbatim bodies of to_u16 / to_u8)
-#[verifier::external_body]
-fn to_u16(value: usize) -> (r: Result<u16, Error>)
-    ensures value <= 0xFFFF ==> r == Ok::<u16, Error>(value as u16), value > 0xFFFF ==> r is Err
-{ unimplemented!() }
-#[verifier::external_body]
-fn to_u8(value: usize) -> (r: Result<u8, Error>)
-    ensures value <= 0xFF ==> r == Ok::<u8, Error>(value as u8), value > 0xFF ==> r is Err
-{ unimplemented!() }
-
+// ---- compiler_convert_assumed.rs: contracts of to_u16 / to_u8, copied from unit c11_control which verifies their real bodies ----
+//@ASSUMES unit=c11_control.rs fn=to_u16 full=1
+//@ASSUMES unit=c11_control.rs fn=to_u8 full=1
